@@ -18,7 +18,7 @@ ASSUMPTIONS = [
     "Unicode text = sequences of scalar values (no lone surrogates)",
     "a watchdog firing (30 s per tree) is reported as inconclusive, never as a violation",
 ]
-REQUIRED = ["repeatability_checks", "trees_valid", "trees_invalid", "tree_calls", "node_calls", "config_fault_cases", "depth_ge_50", "fanout_ge_30"]
+REQUIRED = ["first_use_probes", "repeatability_checks", "trees_valid", "trees_invalid", "tree_calls", "node_calls", "config_fault_cases", "depth_ge_50", "fanout_ge_30"]
 EXHAUSTIVE = {"quick": False, "thorough": False}
 
 
@@ -168,7 +168,45 @@ def config_fault(ctx):
         del mapping[ename]
 
 
+def first_use_probes(ctx):
+    """At the very start of the process, per rule: a node that is invalid in three ways (missing required attributes, wrong
+    content, a disallowed child) is validated three times in each mode, alternating; every repetition must give the same verdict
+    as the first use of the rule in this process did."""
+    for rule_name in emlkit.rule_names():
+        elements = emlkit.elements_of(rule_name)
+        if not elements:
+            continue
+        n = Node(elements[0])
+        n.content = None if emlkit.canonical_content(rule_name) is not None else "unexpected text"
+        n.add_child(Node("verifUnknownChild"))
+        outcomes = []
+        for rep in range(3):
+            for mode in ("collecting", "failfast") if rep % 2 == 0 else ("failfast", "collecting"):
+                try:
+                    if mode == "failfast":
+                        mvalidate.node(n)
+                        outcomes.append((mode, "ok"))
+                    else:
+                        errs = []
+                        mvalidate.node(n, errs)
+                        outcomes.append((mode, tuple(sorted((getattr(e[0], "name", "?"), e[1]) for e in errs))))
+                except mexc.MetapypeRuleError as e:
+                    outcomes.append((mode, "raises:" + type(e).__name__ + ":" + str(e)))
+                except Exception as e:
+                    outcomes.append((mode, "crash:" + type(e).__name__))
+                ctx.evaluated()
+        ctx.count("first_use_probes")
+        for mode in ("failfast", "collecting"):
+            seen = [o for m, o in outcomes if m == mode]
+            if any(o != seen[0] for o in seen):
+                ctx.violation("verdict-not-repeatable", f"{rule_name} (<{elements[0]}>), {mode}: repeated validations of one unchanged node gave "
+                                                        f"{str(seen[0])[:120]} and then {str(next(o for o in seen if o != seen[0]))[:120]}",
+                              {"first_use_probe": rule_name})
+        emlkit.discard(n)
+
+
 def run(ctx, params):
+    first_use_probes(ctx)
     gen = treegen.Gen()
     pr = probe.SiteProbe([srcroot.path("src/metapype/eml/rule.py"), srcroot.path("src/metapype/eml/validate.py")])
     probing = pr.start()
@@ -226,6 +264,11 @@ def finish(merged):
 
 
 def replay(ctx, witness):
+    if witness.get("first_use_probe"):
+        first_use_probes(ctx)
+        ctx.distinct(1)
+        ctx.distinct(2)
+        return
     if witness.get("config_fault"):
         config_fault(ctx)
         ctx.distinct(1)
